@@ -49,7 +49,8 @@ Proof.
 Qed.
 
 Ltac fr_simple :=
-  unfold frame_tr, pc_of; repeat split; intros; cbn in *; auto;
+  try match goal with |- frame_tr ?t ?s _ => tryif is_var s then idtac else (let x := fresh "x" in generalize s; intro x) end;
+  unfold frame_tr, pc_of; repeat split; cbn; intros; auto;
   try match goal with |- context [Nat.eqb ?x ?t] => destruct (Nat.eqb_spec x t); [congruence|reflexivity] end.
 
 Lemma fr_upd_task s t f : (forall k, t_pc (f k) = t_pc k) -> forall t0, frame_tr t0 s (upd_task s t f).
@@ -231,7 +232,7 @@ Proof.
   assert (F0 : frame_tr t s (mark_closed s)) by apply fr_mark_closed.
   destruct (writer_close (mark_closed s) code) as [s1 raised]. cbn [fst] in F1.
   assert (F : frame_tr t s s1) by (eapply frame_trans; eassumption).
-  assert (L1 : lost_ok s1) by (eapply lost_ok_frame; eassumption).
+  assert (L1 : lost_ok s1) by (eapply (lost_ok_frame t); eassumption).
   destruct raised.
   { split; [eapply frame_trans; [exact F|apply fr_close_exc]|intros _; left; apply close_exc_closes; exact L1]. }
   destruct (truthy_code _).
@@ -258,7 +259,7 @@ Proof.
     { unfold writer_close, send_frame. destruct (_ && _); [|destruct (tr_closing _)]; cbn; apply B; auto. }
     destruct (writer_close (mark_closed s) code) as [s1 raised]. cbn [fst] in F1, Hcw.
     assert (F : frame_tr t s s1) by (eapply frame_trans; eassumption).
-    assert (L1 : lost_ok s1) by (eapply lost_ok_frame; eassumption).
+    assert (L1 : lost_ok s1) by (eapply (lost_ok_frame t); eassumption).
     destruct raised.
     { split; [eapply frame_trans; [exact F|apply fr_close_exc]|intros _ _; left; apply close_exc_closes; exact L1]. }
     destruct (waiting s1).
@@ -333,7 +334,7 @@ Proof.
       assert (F : frame_tr t s s1) by (unfold s1; eapply frame_trans; [apply fr_mark_closing|fr_simple]).
       assert (E : closed s1 = closed s) by reflexivity.
       destruct (_ && _).
-      * eapply tr_spec_pre; [exact F|exact E|]. apply close_entry_tr_spec; [eapply lost_ok_frame|eapply cwB_frame]; eassumption.
+      * eapply tr_spec_pre; [exact F|exact E|]. apply close_entry_tr_spec; [eapply (lost_ok_frame t); [exact L|exact F]|eapply (cwB_frame t); [exact B|exact F]].
       * apply tr_spec_same; [eapply frame_trans; [exact F|apply fr_finish]|exact E].
     + apply tr_spec_same; [|destruct (c_side c); reflexivity].
       eapply frame_trans; [|apply fr_finish]. destruct (c_side c).
@@ -366,9 +367,9 @@ Proof.
       * eapply frame_trans; [|apply fr_recv_finally]. fr_simple.
       * rewrite closed_recv_finally. reflexivity.
       * assert (L1 : lost_ok (recv_finally (set_waiting s true))).
-        { eapply lost_ok_frame; [exact L|]. eapply frame_trans; [|apply fr_recv_finally]. fr_simple. }
+        { eapply (lost_ok_frame t); [exact L|]. eapply frame_trans; [|apply fr_recv_finally]. fr_simple. }
         assert (B1 : cwB (recv_finally (set_waiting s true))).
-        { eapply cwB_frame; [exact B|]. eapply frame_trans; [|apply fr_recv_finally]. fr_simple. }
+        { eapply (cwB_frame t); [exact B|]. eapply frame_trans; [|apply fr_recv_finally]. fr_simple. }
         match goal with |- context [recv_handle c ?s0 t ?r] => pose proof (recv_handle_spec s0 t r L1 B1) as H;
           destruct (recv_handle c s0 t r) end; cbn [stop_state]; [exact H|].
         destruct H as [F E]. apply tr_spec_same; assumption.
@@ -382,21 +383,21 @@ Proof.
             + fr_simple. }
         eapply tr_spec_pre; [exact F| |].
         { unfold s1. cbn. rewrite closed_recv_finally. reflexivity. }
-        apply close_entry_tr_spec; [eapply lost_ok_frame|eapply cwB_frame]; eassumption.
+        apply close_entry_tr_spec; [eapply (lost_ok_frame t); [exact L|exact F]|eapply (cwB_frame t); [exact B|exact F]].
       * apply tr_spec_same; [|reflexivity]. eapply frame_trans; [|apply fr_suspend]. fr_simple.
   - set (s0 := recv_finally (set_q_buf (set_waiting s true) rest)).
     assert (F0 : frame_tr t s s0).
     { unfold s0. eapply frame_trans; [|apply fr_recv_finally]. fr_simple. }
     assert (E0 : closed s0 = closed s) by (unfold s0; rewrite closed_recv_finally; reflexivity).
-    assert (L0 : lost_ok s0) by (eapply lost_ok_frame; eassumption).
-    assert (B0 : cwB s0) by (eapply cwB_frame; eassumption).
+    assert (L0 : lost_ok s0) by (eapply (lost_ok_frame t); eassumption).
+    assert (B0 : cwB s0) by (eapply (cwB_frame t); eassumption).
     pose proof (recv_handle_spec s0 t (RRMsg m) L0 B0) as H.
     destruct (recv_handle c s0 t (RRMsg m)) as [s'|s'].
     + eapply tr_spec_pre; eassumption.
     + destruct H as [F E]. eapply tr_spec_pre with (s1 := s').
       * eapply frame_trans; eassumption.
       * congruence.
-      * apply IH; [eapply lost_ok_frame|eapply cwB_frame]; eassumption.
+      * apply IH; [exact (lost_ok_frame t s0 s' L0 F)|exact (cwB_frame t s0 s' B0 F)].
 Qed.
 
 Lemma start_op_spec s t o : lost_ok s -> cwB s -> tr_spec t s (start_op c s t o).
@@ -442,15 +443,15 @@ Proof.
     set (s0 := recv_finally s1).
     assert (F0 : frame_tr t s s0) by (unfold s0; eapply frame_trans; [exact F1|apply fr_recv_finally]).
     assert (E0 : closed s0 = closed s) by (unfold s0; rewrite closed_recv_finally; exact E1).
-    assert (L0 : lost_ok s0) by (eapply lost_ok_frame; eassumption).
-    assert (B0 : cwB s0) by (eapply cwB_frame; eassumption).
+    assert (L0 : lost_ok s0) by (eapply (lost_ok_frame t); eassumption).
+    assert (B0 : cwB s0) by (eapply (cwB_frame t); eassumption).
     pose proof (recv_handle_spec s0 t r L0 B0) as H.
     destruct (recv_handle c s0 t r) as [s'|s'].
     + eapply tr_spec_pre; eassumption.
     + destruct H as [F E]. eapply tr_spec_pre with (s1 := s').
       * eapply frame_trans; eassumption.
       * congruence.
-      * apply recv_loop_spec; [eapply lost_ok_frame|eapply cwB_frame]; eassumption.
+      * apply recv_loop_spec; [exact (lost_ok_frame t s0 s' L0 F)|exact (cwB_frame t s0 s' B0 F)].
   - (* PCloseCW *)
     destruct (t_fut _); [|apply wake_ok_refl]. destruct (was_cancelled _).
     + destruct (c_side c) eqn:Es.
@@ -529,31 +530,31 @@ Proof. intros H. unfold ping_pong_exc. rewrite H. reflexivity. Qed.
 
 Lemma ping_pong_exc_inv s : Inv_tr s -> Inv_tr (ping_pong_exc c s).
 Proof.
-  intros I. apply inv_step_all; [exact I|intros; apply fr_ping_pong_exc|].
+  intros I. apply inv_step_all with (s := s); [exact I|intros; apply fr_ping_pong_exc|].
   intros Hc _. apply ping_pong_exc_closes; [apply inv_lost_ok; exact I|exact Hc].
 Qed.
 
 Lemma inv_same s s' : Inv_tr s -> (forall t0, frame_tr t0 s s') -> closed s' = closed s -> Inv_tr s'.
-Proof. intros I F E. apply inv_step_all; auto. intros. congruence. Qed.
+Proof. intros I F E. apply inv_step_all with (s := s); auto. intros. congruence. Qed.
 
 Lemma run_timer_inv s k : Inv_tr s -> Inv_tr (run_timer c s k).
 Proof.
   intros I. destruct k; cbn [run_timer].
   - destruct (due _ _); [|exact I]. unfold fire_hb. cbn zeta.
-    assert (I0 : Inv_tr (set_hb_cb s None)) by (apply inv_same; [exact I|intros; fr_simple|reflexivity]).
+    assert (I0 : Inv_tr (set_hb_cb s None)) by (apply inv_same with (s := s); [exact I|intros; fr_simple|reflexivity]).
     destruct (need_reset _); [exact I0|]. destruct (_ <? _).
-    { apply inv_same; [exact I|intros; fr_simple|reflexivity]. }
+    { apply inv_same with (s := s); [exact I|intros; fr_simple|reflexivity]. }
     destruct (c_hb c); [|exact I0].
     match goal with |- context [send_frame ?s0 FPing] =>
       assert (I1 : Inv_tr (fst (send_frame s0 FPing)));
-      [apply inv_same; [exact I|intros; eapply frame_trans; [|apply fr_send_frame]; fr_simple|rewrite closed_send_frame; reflexivity]|];
+      [apply inv_same with (s := s); [exact I|intros; eapply frame_trans; [|apply fr_send_frame]; fr_simple|rewrite closed_send_frame; reflexivity]|];
       destruct (send_frame s0 FPing) as [s1 raised] end.
     cbn [fst] in I1. destruct raised; [apply ping_pong_exc_inv|]; exact I1.
   - destruct (due _ _); [|exact I]. unfold fire_pong. cbn zeta.
-    assert (I0 : Inv_tr (set_pong_cb s None)) by (apply inv_same; [exact I|intros; fr_simple|reflexivity]).
+    assert (I0 : Inv_tr (set_pong_cb s None)) by (apply inv_same with (s := s); [exact I|intros; fr_simple|reflexivity]).
     destruct (c_side c); [destruct (lost _); [exact I0|]|]; apply ping_pong_exc_inv; exact I0.
   - destruct (due _ _); [|exact I]. unfold fire_task_timeout. cbn zeta.
-    apply inv_same; [exact I| |rewrite closed_fut_done; reflexivity].
+    apply inv_same with (s := s); [exact I| |rewrite closed_fut_done; reflexivity].
     intros. eapply frame_trans; [|apply fr_fut_done]. apply fr_upd_task. reflexivity.
 Qed.
 
@@ -570,11 +571,11 @@ Lemma conn_lost_inv s : Inv_tr s -> tr_closing s = true -> Inv_tr (conn_lost c s
 Proof.
   intros I T. unfold conn_lost. destruct (lost s); [exact I|].
   assert (I1 : Inv_tr (set_lost s true)).
-  { destruct I as [I1 I2 I3 I4]. constructor; cbn; auto. intros H. destruct (I4 H) as [G|[G|G]]; [left|right;left|right;right]; auto. }
+  { destruct I as [I1 I2 I3 I4]. constructor; cbn; auto. }
   destruct (c_side c).
-  - apply inv_same; [exact I1|intros; apply fr_feed_eof|]. unfold feed_eof. cbn. rewrite closed_release_waiter. reflexivity.
+  - apply inv_same with (s := set_lost s true); [exact I1|intros; apply fr_feed_eof|]. unfold feed_eof. cbn. rewrite closed_release_waiter. reflexivity.
   - destruct (proto_close _); [exact I1|].
-    apply inv_same; [exact I1| |].
+    apply inv_same with (s := set_lost s true); [exact I1| |].
     + intros. eapply frame_trans; [apply fr_feed_eof|]. fr_simple.
     + cbn. unfold feed_eof. cbn. rewrite closed_release_waiter. reflexivity.
 Qed.
@@ -623,9 +624,9 @@ Proof.
   intros I T. destruct r; cbn [run_item].
   - apply run_wake_inv; exact I.
   - apply conn_lost_inv; auto.
-  - apply inv_same; [exact I|intros; apply fr_flush|apply closed_flush].
+  - apply inv_same with (s := s); [exact I|intros; apply fr_flush|apply closed_flush].
   - apply run_timer_inv; exact I.
-  - apply inv_same; [exact I|intros; apply fr_deliver|apply closed_deliver].
+  - apply inv_same with (s := s); [exact I|intros; apply fr_deliver|apply closed_deliver].
 Qed.
 
 Lemma closer_free k : task_free k = true -> closer (t_pc k) = false.
@@ -638,33 +639,29 @@ Proof.
     eapply inv_step with (t := t); [exact I| |].
     + eapply frame_trans; [apply fr_upd_task_self|apply fr_enq; discriminate].
     + intros Hc [H|H]; [cbn in Hc; congruence|]. unfold pc_of in H. rewrite closer_free in H; [discriminate|exact E].
-  - inversion Hs; subst. apply inv_same; [exact I|intros; apply fr_deliver|apply closed_deliver].
-  - inversion Hs; subst. apply inv_same; [exact I|intros; apply fr_enq; discriminate|reflexivity].
+  - inversion Hs; subst. apply inv_same with (s := s); [exact I|intros; apply fr_deliver|apply closed_deliver].
+  - inversion Hs; subst. apply inv_same with (s := s); [exact I|intros; apply fr_enq; discriminate|reflexivity].
   - inversion Hs; subst. destruct (tr_closing s) eqn:T; [exact I|].
     apply conn_lost_inv; [|reflexivity].
-    destruct I as [I1 I2 I3 I4]. constructor; cbn; auto.
+    destruct I as [I1 I2 I3 I4]. constructor; cbn; auto. intros _. left. reflexivity.
   - destruct (Nat.ltb t ntasks); inversion Hs; subst. unfold cancel_task. cbn zeta.
     destruct (task_blocked _).
-    + apply inv_same; [exact I| |rewrite closed_fut_done; reflexivity].
+    + apply inv_same with (s := s); [exact I| |rewrite closed_fut_done; reflexivity].
       intros. eapply frame_trans; [|apply fr_fut_done]. apply fr_upd_task. reflexivity.
     + destruct (t_pc (tasks s t)); try exact I.
-      apply inv_same; [exact I| |reflexivity]. intros. apply fr_upd_task. reflexivity.
-  - inversion Hs; subst. apply inv_same; [exact I| |reflexivity].
+      apply inv_same with (s := s); [exact I| |reflexivity]. intros. apply fr_upd_task. reflexivity.
+  - inversion Hs; subst. apply inv_same with (s := s); [exact I| |reflexivity].
     intros. unfold advance. fr_simple. apply in_app_or in H. destruct H as [H|H]; [auto|].
     apply in_map_iff in H. destruct H as (x & Hx & _). discriminate.
   - destruct (ready s) as [|r rest] eqn:E; inversion Hs; subst.
     assert (I0 : Inv_tr (set_ready s rest)).
-    { apply inv_same; [exact I| |reflexivity]. intros. fr_simple. left. rewrite E. right. assumption. }
+    { apply inv_same with (s := s); [exact I| |reflexivity]. intros. fr_simple. left. rewrite E. right. assumption. }
     apply run_item_inv; [exact I0|]. intros ->. cbn. destruct I as [_ I2 _ _]. apply I2. rewrite E. left. reflexivity.
 Qed.
 
 Lemma init_inv : Inv_tr (init c).
 Proof.
-  unfold init. apply inv_same with (s := mkState false false None false None 0 [] false None None false false false false false []
-             16000 None 0 None false (fun _ => idle_task) [] false false [] false false).
-  - constructor; cbn; intros; try discriminate; try contradiction; auto.
-  - intros. unfold reset_heartbeat. destruct (c_hb c); [|apply frame_refl]. cbn zeta. fr_simple.
-  - unfold reset_heartbeat. destruct (c_hb c); reflexivity.
+  unfold init, reset_heartbeat. destruct (c_hb c); constructor; cbn; intros; try discriminate; try contradiction; auto.
 Qed.
 
 Theorem reach_inv_tr s : reach c s -> Inv_tr s.
@@ -684,5 +681,3 @@ Proof.
 Qed.
 
 (* the flag is a server-only escape *)
-Lemma client_no_leak c s : c_side c = Client -> reach c s -> cw_leak s = false.
-Proof. Admitted_placeholder.
